@@ -7,8 +7,11 @@
 (* prescribes (exp) and, where an open finding changes it, the observation    *)
 (* under the named deviations (dev).  The harness replays every line on a     *)
 (* fresh runtime, a runtime with underscore loaded and a Copy() of each.      *)
+(* Besides the table: the family of function objects made at run time         *)
+(* (spec/C14Fn.tla: targets x chains of Function.prototype.bind), one line    *)
+(* "fn" per case with the complete observation 13.2 / 15.3.4.5 prescribe.     *)
 EXTENDS Naturals, Sequences, FiniteSets, Json, TLC
-CONSTANTS OpenDev
+CONSTANTS OpenDev, Deep          \* Deep: the thorough tier (larger family of run-time function objects)
 VARIABLES blk, cs
 
 S == INSTANCE LibShape WITH Dev <- {}
@@ -56,6 +59,40 @@ N  == NO + NR + NF + NC + NP
 
 DevOf(es, ed) == IF ed = es THEN <<>> ELSE <<ed>>
 
+(* Function objects created at run time (spec/C14Fn.tla): functions made from source text and every callable   *)
+(* object of the table, each under chains of Function.prototype.bind.  The library targets and their lengths    *)
+(* are read from the table.                                                                                    *)
+SF == INSTANCE C14Fn WITH Dev <- {}
+LF == INSTANCE C14Fn WITH Dev <- OpenDev
+LibIx == SelectSeq([i \in 1..NO |-> i], LAMBDA i : STab.objs[i].callable /\ STab.objs[i].grp \in {"lib", "annexB"})
+LibLen(tb, id) == S!RowAt(tb, id, "length")[1].val.n.v
+LibFns == [k \in 1..Len(LibIx) |->
+            LET o == STab.objs[LibIx[k]] IN
+            [id |-> o.id, js |-> IF o.js # "" THEN o.js ELSE IF o.vo = "global" THEN o.vn ELSE o.id,
+             ctor |-> o.ctor, len |-> LibLen(STab, o.id)]]
+FnCases == SF!Cases(LibFns, IF Deep THEN 5 ELSE 4, Deep)
+NFn == Len(FnCases)
+FnLen(tb, c) == IF c.t.src = "lib" THEN LibLen(tb, c.t.id) ELSE c.t.p
+FnLine(j) ==
+    LET c  == FnCases[j]
+        es == SF!FnExp(c.t, FnLen(STab, c), c.chain)
+    IN  [k |-> "fn", i |-> 0, id |-> SF!CaseId(c.t, c.chain), base |-> SF!BaseJs(c.t), fn |-> SF!FnJs(c.chain),
+         names |-> SF!Names(c.t, c.chain), mut |-> FALSE,
+         clause |-> IF c.chain # <<>> THEN "15.3.4.5" ELSE IF c.t.mk \in {"ctor", "ctorJoined", "ctorCall"} THEN "15.3.2.1 / 13.2" ELSE "13.2",
+         exp |-> es, dev |-> DevOf(es, LF!FnExp(c.t, FnLen(LTab, c), c.chain))]
+(* as for the table: no line of the family is changed by more than one open finding *)
+LFD(d) == INSTANCE C14Fn WITH Dev <- {d}
+(* The observation depends on the target only through [src, ctor, length]: the check is made per such shape.    *)
+(* No open finding changes the length row of a library function today (see LibLenDevs below).                  *)
+FnShapes == {[src |-> FnCases[j].t.src, ctor |-> FnCases[j].t.ctor, p |-> FnCases[j].t.p, chain |-> FnCases[j].chain] : j \in 1..NFn}
+FnShapeDevs(k) == {d \in OpenDev : LFD(d)!FnExp(k, k.p, k.chain) # SF!FnExp(k, k.p, k.chain)}
+CrowdedFnLines == {k \in FnShapes : Cardinality(FnShapeDevs(k)) > 1}
+ASSUME CrowdedFnLines = {} \/ (PrintT(<<"MORE-THAN-ONE-OPEN-FINDING-ON-A-LINE", CrowdedFnLines>>) /\ FALSE)
+(* (a warning only: such a finding and one on bound functions would act on the same lines, and a tree in which only *)
+(* one of the two is repaired would then meet neither exp nor dev)                                                *)
+LibLenDevs == {k \in 1..Len(LibIx) : LibLen(LTab, LibFns[k].id) # LibFns[k].len}
+ASSUME LibLenDevs = {} \/ PrintT(<<"WARNING: an open finding changes the length of a library function; refine CrowdedFnLines", {LibFns[k].id : k \in LibLenDevs}>>)
+
 (* the lines of a table: ts strict, tl under the open findings (same entries); calls only for the base table *)
 LineOf(ts, tl, j, mut) ==
     LET no == Len(ts.objs)
@@ -89,12 +126,13 @@ LTabM == L!MutTab(LTab)
 ASSUME S!MutOK(STab)
 ASSUME Len(LProbes) = NP /\ \A i \in 1..NP : SProbes[i].id \in STab.ids /\ LProbes[i].id = SProbes[i].id /\ LProbes[i].call = SProbes[i].call
 NM == Len(STabM.objs) + Len(STabM.rows) + NF          \* objects, own properties, for-in subjects; no calls
-Total == N + NM + 1
+Total == N + NM + 1 + NFn
 
 Line(j) ==
     IF j <= N THEN [LineOf(STab, LTab, j, FALSE) EXCEPT !.i = j]
     ELSE IF j <= N + NM THEN [LineOf(STabM, LTabM, j - N, TRUE) EXCEPT !.i = j]
-    ELSE [k |-> "mutation", i |-> j, js |-> S!MutScript, mut |-> TRUE]
+    ELSE IF j = N + NM + 1 THEN [k |-> "mutation", i |-> j, js |-> S!MutScript, mut |-> TRUE]
+    ELSE [FnLine(j - N - NM - 1) EXCEPT !.i = j]
 
 (* parallel evaluation: an initial state is a block, its successors the lines of the block *)
 K == 16
